@@ -1,9 +1,11 @@
-(* Props/C05.v — C05: batches respect watcher, batchability and size limit.
-   (Order inside a batch and across batches: see the note at the end.) *)
+(* Props/C05.v — C05: batches respect watcher, batchability, size limit and order.
+   Order: ins s lists the operations in the order in which they entered the buffer (enqueue order as
+   the Batcher sees it); sub l1 l2 says l1 is a subsequence of l2 (same relative order); rel s is
+   everything released so far in the order of release. *)
 From Coq Require Import List ZArith Bool Lia Permutation.
 From RecordUpdate Require Import RecordUpdate.
 From GB Require Import Model.Allowance Model.Batcher Proofs.Tactics Proofs.C01Inv Proofs.BatcherLocal
-  Proofs.BatcherLocal2 Proofs.BatcherInv2 Proofs.BatcherInv3.
+  Proofs.BatcherLocal2 Proofs.BatcherInv2 Proofs.BatcherInv3 Proofs.OrderInv.
 Import ListNotations.
 Open Scope Z_scope.
 (* every batch ever raised is non-empty and contains only operations of the watcher that receives it *)
@@ -27,6 +29,23 @@ Print Assumptions C05_open_batches_below_limit.
 Theorem C05_partial_batches_only_at_cycle_end : forall c s w s' o, step c s (ICycleRaise w) = Some (s', o) -> loop s = LCycleEnd /\ get_open (cy_open s) w <> [].
 Proof. intros c s w s' o H. simpl in H. unfold do_cycle_raise in H. destruct (loop s); try discriminate. split; [reflexivity|]. destruct (get_open (cy_open s) w); [discriminate|discriminate]. Qed.
 Print Assumptions C05_partial_batches_only_at_cycle_end.
+
+(* operations keep enqueue order inside every batch ever raised — with or without a slot limit, whatever the cycle skips *)
+Theorem C05_order_inside_batches : forall c s w ops, reachable c s -> In (w, ops) (g_raised s) -> sub ops (ins s).
+Proof. exact batches_in_enqueue_order. Qed.
+Print Assumptions C05_order_inside_batches.
+
+(* the buffer itself never reorders (removals from the head, the middle or the tail included) *)
+Theorem C05_buffer_keeps_order : forall c s, reachable c s -> sub (buffer s) (ins s).
+Proof. exact buffer_in_enqueue_order. Qed.
+Print Assumptions C05_buffer_keeps_order.
+
+(* without a concurrency limit (and in V1) each watcher's batchable operations (class CB w), and all non-batchable
+   operations (class CN), are released in enqueue order across batches and cycles *)
+Theorem C05_release_order_without_slot_limit : forall c s k,
+  fifo c = true -> reachable c s -> sub (filter (inclass k) (rel s)) (ins s).
+Proof. exact released_in_enqueue_order. Qed.
+Print Assumptions C05_release_order_without_slot_limit.
 
 (* non-vacuity: the README's mixed example — two watchers, batchable and not *)
 Definition ex_cfg : cfg := mkCfg V1 10 false false 0 0 0 0 0 0 [mkW 2 0 0; mkW 0 0 0].
